@@ -80,7 +80,8 @@ Definition enc_nanswer (a : nanswer) : itree :=
          -> [valid, answers along the history on one object, answers of the stateless models]
    op 2: [[nfa...], [nquery...]]
          -> [[valid...], answers along the history (one memo per instance, all empty at the start),
-             answers with every closure table computed from scratch, answers of the C01/C09/C07/C08 models] *)
+             answers with every closure table computed from scratch, answers of the C01/C09/C07/C08 models,
+             the memos after the history ([] empty / [table]), which memos are filled after each query] *)
 Definition d20 (op : nat) (t : itree) : itree :=
   match op, t with
   | 1, L [tm; tq] =>
@@ -95,7 +96,10 @@ Definition d20 (op : nat) (t : itree) : itree :=
       L [enc_list Ib (map valid_nfa defs);
          enc_list enc_nanswer (nanswers defs (fresh_memos defs) qs);
          enc_list enc_nanswer (map (npure defs) qs);
-         enc_list enc_nanswer (map (spec_answer defs) qs)]
+         enc_list enc_nanswer (map (spec_answer defs) qs);
+         enc_list (enc_opt (enc_list (enc_pair In_ enc_nats))) (nrun_history defs (fresh_memos defs) qs);
+         enc_list (enc_list (fun c => Ib (match c with Some _ => true | None => false end)))
+                  (nstates defs (fresh_memos defs) qs)]
     | _, _ => bad_input
     end
   | _, _ => bad_input
